@@ -99,7 +99,11 @@ func c09env(c *h.Ctx, idx int, staged bool, assign string, r *h.Rand, special bo
 		argv += fmt.Sprintf(" \"$%s\"", k)
 	}
 	cmd := fmt.Sprintf("printf '%s\\n'%s >> '%s'", format, argv, trace)
-	tdef := gen.OM{{K: "command", V: []interface{}{cmd}}, {K: "context", V: "cx"}, {K: "env_file", V: "vars.env"}, {K: "env", V: defs[3]}, {K: "variations", V: []interface{}{gen.FromStrMap(defs[5]), gen.OM{{K: "VOTHER", V: "second-variation"}}}}}
+	// the same environment as a started program sees it (the shell's own expansion and the environment handed to
+	// child processes are built separately)
+	envdump := real + "/envdump"
+	cmd2 := fmt.Sprintf("env >> '%s'; printf 'ENDBLOCK\\n' >> '%s'", envdump, envdump)
+	tdef := gen.OM{{K: "command", V: []interface{}{cmd, cmd2}}, {K: "context", V: "cx"}, {K: "env_file", V: "vars.env"}, {K: "env", V: defs[3]}, {K: "variations", V: []interface{}{gen.FromStrMap(defs[5]), gen.OM{{K: "VOTHER", V: "second-variation"}}}}}
 	cfg := gen.OM{
 		{K: "contexts", V: gen.OM{{K: "cx", V: gen.OM{{K: "env", V: defs[1]}}}}},
 		{K: "tasks", V: gen.OM{{K: "the-task", V: tdef}}},
@@ -166,6 +170,32 @@ func c09env(c *h.Ctx, idx int, staged bool, assign string, r *h.Rand, special bo
 			c.Violate(fmt.Sprintf("env-precedence/%s-beats-%s", from, wantLevel[n]), fmt.Sprintf("name defined at {%s}: command saw %q, the highest level (%s) has %q [staged=%v]", strings.Join(have, ", "), kv[n], wantLevel[n], want[n], staged), cas)
 		}
 		c.Nontrivial(fmt.Sprint(n, staged, want[n]))
+	}
+	blocks := strings.Split(h.ReadFile(envdump), "ENDBLOCK\n")
+	if len(blocks) < 2 {
+		c.Violate("env-run-failed", fmt.Sprintf("the environment of a started program was recorded %d times (two variations expected)", len(blocks)-1), cas)
+		return
+	}
+	for bi, wantMap := range []map[string]string{want, want2} {
+		seen := map[string]string{}
+		for _, l := range strings.Split(blocks[bi], "\n") {
+			if j := strings.IndexByte(l, '='); j > 0 {
+				seen[l[:j]] = l[j+1:]
+			}
+		}
+		for _, n := range names {
+			c.Count("names_checked_in_child_processes", 1)
+			if seen[n] != wantMap[n] {
+				from := "?"
+				for lv := 0; lv < 6; lv++ {
+					if v, ok := defs[lv][n]; ok && v == seen[n] {
+						from = envLevels[lv]
+					}
+				}
+				c.Violate("env-precedence/child-process/"+from+"-wins", fmt.Sprintf("variation %d: a program started by the command sees %s=%q, the statement requires %q (the shell itself expanded it to %q) [staged=%v]", bi+1, n, seen[n], wantMap[n], []map[string]string{kv, kv2}[bi][n], staged), cas)
+				break
+			}
+		}
 	}
 	if kv["PARENT_ONLY"] != "from the parent" {
 		c.Violate("env-parent-passthrough", fmt.Sprintf("PARENT_ONLY=%q", kv["PARENT_ONLY"]), cas)
